@@ -50,6 +50,15 @@ fn boundary64() -> Vec<f64> {
         v.push(f64::from_bits(1.0_f64.to_bits() - k));
         v.push(f64::from_bits(1.0_f64.to_bits() + k));
     }
+    // every level of the confidence grid used by the other checks, and its f32 rounding
+    for &l in mc::LG.iter() {
+        v.push(l);
+        v.push(l as f32 as f64);
+    }
+    // subnormal / tiny-normal ladder: every power of two from 2^-1074 to 2^-1000
+    for e in -1074..=-1000 {
+        v.push(2.0_f64.powi(e));
+    }
     v
 }
 
@@ -228,9 +237,10 @@ fn order_values() -> Vec<Confidence> {
     let levels = [5e-324, 0.001, 0.25, 0.5, 0.5000000000000001, 0.9, 0.95, 0.9500000000000001, 0.975, 0.99, 0.9999, 1.0 - 2.0_f64.powi(-53)];
     let mut v = vec![];
     for l in levels {
-        v.push(Confidence::new_two_sided(l));
-        v.push(Confidence::new_upper(l));
-        v.push(Confidence::new_lower(l));
+        // variants directly: the constructors are judged separately (judge_ctor)
+        v.push(Confidence::TwoSided(l));
+        v.push(Confidence::UpperOneSided(l));
+        v.push(Confidence::LowerOneSided(l));
     }
     v
 }
